@@ -81,6 +81,34 @@ func (r *rot) Wrapper() wrapping.Wrapper { return r.w }
 func (r *rot) HmacSalt() []byte          { return r.salt }
 func (r *rot) HmacInfo() []byte          { return r.info }
 
+// rotZero is a rotation payload whose VALUE is the zero value of its type (value receivers; the key material
+// comes from elsewhere).
+type rotZero struct{}
+
+func (rotZero) Wrapper() wrapping.Wrapper { return encrun.Key.Wrapper() }
+func (rotZero) HmacSalt() []byte          { return []byte("zero-salt") }
+func (rotZero) HmacInfo() []byte          { return nil }
+
+// rotVal is handed over by value with all fields zero (nothing to rotate: still a rotation payload).
+type rotVal struct {
+	w          wrapping.Wrapper
+	salt, info []byte
+}
+
+func (r rotVal) Wrapper() wrapping.Wrapper { return r.w }
+func (r rotVal) HmacSalt() []byte          { return r.salt }
+func (r rotVal) HmacInfo() []byte          { return r.info }
+
+// rotWithID satisfies RotateWrapper and, through an embedded base type that carries an event id, has an EventId method too.
+type baseEvent struct{ ID string }
+
+func (b baseEvent) EventId() string { return b.ID }
+
+type rotWithID struct {
+	baseEvent
+	rot
+}
+
 type ewi struct {
 	id   string
 	A    string `class:"sensitive"`
@@ -95,7 +123,7 @@ func (e *ewi) HmacSalt() []byte { return e.salt }
 func (e *ewi) HmacInfo() []byte { return nil }
 
 func TestC09Special(t *testing.T) {
-	sec := stats.Sec("special_payloads", "rapid: RotateWrapper payloads (any subset of wrapper/salt/info) must be consumed (nil,nil) unless every operation is none; EventWrapperInfo payloads (ids incl. \"\", no base wrapper) must be protected or rejected; non-trivial = rotation payload or failing event wrapper")
+	sec := stats.Sec("special_payloads", "rapid: RotateWrapper payloads (any subset of wrapper/salt/info; handed over as a pointer, as the zero value of a value-receiver type, by value with all fields zero, or as a type that has an EventId method as well) must be consumed (nil,nil) unless every operation is none; EventWrapperInfo payloads (ids incl. \"\", no base wrapper) must be protected or rejected; non-trivial = rotation payload or failing event wrapper")
 	rapid.Check(t, func(t *rapid.T) {
 		c := encrun.GenFCfg(t, true)
 		f := c.Filter()
@@ -108,11 +136,21 @@ func TestC09Special(t *testing.T) {
 			if rapid.Bool().Draw(t, "s") {
 				r.salt = []byte("s2")
 			}
-			out, err := f.Process(context.Background(), &eventlogger.Event{Type: "t", Payload: r})
-			if !allNone && (out != nil || err != nil) {
-				t.Fatalf("VIOLATION C09: rotation payload was not consumed (event=%v err=%v)\ncase: %s", out != nil, err, c)
+			var pl interface{} = r
+			shape := rapid.SampledFrom([]string{"pointer", "pointer", "zero-value-type", "by-value-all-zero", "pointer-with-EventId-method"}).Draw(t, "rotationShape")
+			switch shape {
+			case "zero-value-type":
+				pl = rotZero{}
+			case "by-value-all-zero":
+				pl = rotVal{}
+			case "pointer-with-EventId-method":
+				pl = &rotWithID{baseEvent{"ev-7"}, *r}
 			}
-			sec.Case(true, "rotation "+c.String(), "rotation_payload")
+			out, err := f.Process(context.Background(), &eventlogger.Event{Type: "t", Payload: pl})
+			if !allNone && (out != nil || err != nil) {
+				t.Fatalf("VIOLATION C09: rotation payload (%s) was not consumed (event=%v err=%v)\ncase: %s", shape, out != nil, err, c)
+			}
+			sec.Case(true, "rotation "+shape+" "+c.String(), "rotation_payload", "rotation_shape="+shape)
 			return
 		}
 		id := rapid.SampledFrom([]string{"ev-1", "ev-1", ""}).Draw(t, "id")
